@@ -200,6 +200,21 @@ def run_check(prop_id: str, rules, tier: str, level: str, explanation: str, trus
         except Exception as e:
             selftest = {"variants": 0, "error": repr(e)}
 
+    replay_key = None
+    if replay:
+        try:
+            with open(replay) as fh:
+                rv = json.load(fh)
+            replay_key = (rv.get("rule"), rv.get("construct"))
+        except Exception as e:
+            error = error or ("ANALYSIS-ERROR property=%s cannot read replay file %s: %s" % (prop_id, replay, e))
+    if replay_key is not None:
+        # replay = re-run the rules on the current tree and keep only the recorded rule instance
+        for r in results:
+            r.findings = [f for f in r.findings if (f.rule, f.construct) == replay_key]
+        print("replay: rule %s on %s -> %s" % (replay_key[0], replay_key[1],
+              "still reported" if any(r.findings for r in results) else "no longer reported on this tree"))
+
     known = load_known()
     known_keys = {(k["property"], k["rule"], k["construct"]): k for k in known.get("known", [])}
     violations = []
@@ -257,8 +272,9 @@ def run_check(prop_id: str, rules, tier: str, level: str, explanation: str, trus
         "wall_s": round(time.time() - t0, 3),
         "violations": len(violations),
     }
-    with open(evidence_path, "w") as f:
-        json.dump(evidence, f, indent=1, sort_keys=False, default=str)
+    if not replay:      # a replay re-examines one recorded instance; it is not a run of the check
+        with open(evidence_path, "w") as f:
+            json.dump(evidence, f, indent=1, sort_keys=False, default=str)
 
     # ---- console report ----------------------------------------------
     print("sa-check %s tier=%s: %d rule(s), %d instance(s), %d path(s), %d/%d obligation(s) discharged, %.2fs" % (
